@@ -137,9 +137,24 @@ def base_shapes():
     return shapes
 
 
+def late_primary_shapes():
+    """pessimistic shapes whose primary (the first locked key) is NOT the first key of its region, in a region that a small
+    batch limit cuts into several batches with the primary in the 2nd or a later one (limit 3 bytes = two 2-byte keys per
+    batch; the shapes carry their batch limit). Batch bookkeeping of the primary: which batch is prewritten / committed
+    first, which one decides the transaction."""
+    K = ["k1", "k2", "k3", "k4", "k5"]
+    mk = lambda ops: [{"op": o, "k": k, "v": f"v-{k}"} for o, k in ops]
+    return [
+        {"name": "lp4a", "keys": K[:4], "splits": [], "batch_size": 3, "ops": mk([("set", "k4"), ("set", "k3"), ("set", "k2"), ("set", "k1")])},
+        {"name": "lp4b", "keys": K[:4], "splits": ["k2"], "batch_size": 3, "ops": mk([("set", "k4"), ("del", "k2"), ("set", "k3"), ("set", "k1")])},
+        {"name": "lp5", "keys": K, "splits": ["k3"], "batch_size": 3, "ops": mk([("set", "k5"), ("set", "k1"), ("del", "k4"), ("set", "k3"), ("set", "k2")])},
+        {"name": "lp3s", "keys": K[:3], "splits": [], "batch_size": 1, "ops": mk([("set", "k2"), ("set", "k1"), ("set", "k3")])},
+    ]
+
+
 def mk_scenario(sid, shape, mode, pess, preload=True, backend="unistore", **kw):
     pre = [{"k": k, "v": f"old-{k}"} for k in shape["keys"] if not any(o["k"] == k and o["op"] in ("insert", "insdel") for o in shape["ops"])] if preload else []
-    sc = {"id": sid, "backend": backend, "splits": shape["splits"], "preload": pre, "batch_size": kw.pop("batch_size", 0),
+    sc = {"id": sid, "backend": backend, "splits": shape["splits"], "preload": pre, "batch_size": kw.pop("batch_size", 0) or shape.get("batch_size", 0),
           "txn": {"mode": mode, "pessimistic": pess, "causal": kw.pop("causal", False), "ops": shape["ops"], "finish": kw.pop("finish", "")},
           "faults": kw.pop("faults", []), "black_from": kw.pop("black_from", -1), "black_kind": kw.pop("black_kind", ""),
           "extras": kw.pop("extras", []), "recover": kw.pop("recover", True), "keys": sorted(set(shape["keys"]))}
@@ -482,6 +497,7 @@ def locks_replay_lines(sc, r, t="t1"):
     S = info["start"]
     win = locks_windows(r, cid)
     lines, exp = [f"P\t{r['id']}\t{1 if info.get('pessimistic') else 0}"], []
+    lostk = [k for k in (sc.get("_lost_keys") or []) if k in kidx]
     others = [v.get("commit_ts", 0) for n, v in r["txns"].items() if n != t]
     for s in r.get("steps", []):
         if s.get("t") != t or s.get("skipped") or "bk" not in s:
@@ -540,7 +556,7 @@ def locks_replay_lines(sc, r, t="t1"):
         elif op in ("agg_start", "agg_retry", "agg_cancel", "agg_done"):
             body = [op.replace("_", "")]
         elif op == "rollback":
-            body = ["rollback"]
+            body = ["rollback"] + ([hx(lostk)] if lostk else [])
         elif op == "commit":
             pws = [(sends.get(e.get("req"), {}), e.get("f") or {}) for e in evs if e.get("cmd") == "Prewrite" and e["kind"] == "deliver" and sends.get(e.get("req"), {}).get("start") == S]
             cms = [(sends.get(e.get("req"), {}), e.get("f") or {}) for e in evs if e.get("cmd") == "Commit" and e["kind"] == "deliver" and sends.get(e.get("req"), {}).get("start") == S]
@@ -559,7 +575,7 @@ def locks_replay_lines(sc, r, t="t1"):
                     "t0": s.get("t0_ms"), "t1": s.get("t1_ms")})
     if str(info.get("result", "")).startswith("rolledback(final)"):
         lines.append("E\tfinal\trollback")
-    lines.append("D")
+    lines.append("D" + ("\t" + hx(lostk) if lostk else ""))
     return lines, exp
 
 
@@ -586,6 +602,7 @@ def locks_compare(sc, r, out_lines, exp, t="t1"):
             continue
         bk = x["bk"]
         x["X"] = len(p) > 12 and p[12] == "X"
+        x["mstore"] = dec(p[11]) if len(p) > 11 else []
         # keep-alive (ttlManager): running or not after every call; the bound key is kept for the heart-beat check
         if len(p) > 14:
             x["ka"] = "" if p[14] in ("U", "C") else kname.get(p[14], "?")
@@ -622,3 +639,49 @@ def locks_compare(sc, r, out_lines, exp, t="t1"):
     if left is None:
         bad.append("no final model state")
     return bad, left
+
+
+
+def locks_lost_keys(sc, r, t="t1"):
+    """C06, scenarios with lost release requests: keys of t for which a release request (PessimisticRollback / BatchRollback /
+    Commit) was lost (act dropreq) and no release request naming them was EXECUTED by the store (deliver event without
+    region error) after the key was last locked"""
+    info = (r.get("txns") or {}).get(t) or {}
+    S = info.get("start")
+    cid = sc["txns"][t].get("client") or ("c" + t.lstrip("t"))
+    sends, released, dropped, held = {}, {}, {}, {}
+    for e in r.get("trace", []):
+        f = e.get("f") or {}
+        if e.get("client") != cid:
+            continue
+        if e["kind"] == "send":
+            sends[e.get("req")] = (e.get("cmd"), f)
+            if e.get("cmd") in ("PessimisticRollback", "BatchRollback", "Commit") and f.get("start") == S and f.get("act") == "dropreq":
+                for h in f.get("keys") or []:
+                    k = bytes.fromhex(h).decode()
+                    if not released.get(k):
+                        dropped[k] = True
+        elif e["kind"] == "deliver" and e.get("req") in sends and sends[e["req"]][1].get("start") == S \
+                and "regionerr" not in f and "rpc_err" not in f:
+            cmd, sf = sends[e["req"]]
+            ks = [bytes.fromhex(h).decode() for h in sf.get("keys") or []]
+            if cmd in ("PessimisticLock", "Prewrite") and not f.get("errors"):
+                for k in ks:
+                    released[k], dropped[k] = False, False
+                    # what the store holds now: a pessimistic lock with its for-update ts, or a prewrite lock
+                    held[k] = ("pess", max(sf.get("for_update", 0), held.get(k, ("", 0))[1] if held.get(k, ("",))[0] == "pess" else 0)) if cmd == "PessimisticLock" else ("prew", 0)
+            elif cmd in ("PessimisticRollback", "BatchRollback", "Commit") and not f.get("error") and not f.get("errors"):
+                for k in ks:
+                    kind, fu = held.get(k, ("", 0))
+                    if cmd == "PessimisticRollback" and (kind == "prew" or (kind == "pess" and sf.get("for_update", 0) < fu)):
+                        continue        # a pessimistic rollback leaves prewrite locks and pessimistic locks with a newer for-update ts
+                    if cmd == "Commit" and kind == "pess":
+                        continue
+                    released[k] = True
+    lost = sorted(k for k, d in dropped.items() if d and not released.get(k))
+    any_loss = any(e["kind"] == "send" and e.get("client") == cid and (e.get("f") or {}).get("act") in ("dropreq", "dropresp") for e in r.get("trace", []))
+    if any_loss and str(sc.get("black_kind") or "").startswith("release_"):
+        # lost for good: the action that met the loss gives up, the batches it had not sent yet are never sent —
+        # every key locked and never released since counts as "its release never reached the store"
+        lost = sorted(set(lost) | {k for k, rel in released.items() if not rel})
+    return lost
